@@ -235,11 +235,14 @@ static std::string dumpS(const statement_t *s) {
 struct Quiet {
   int saved1, saved2;
   Quiet() {
+    static const bool loud = getenv("H_EXPR_LOUD") != NULL;   // debugging aid: keep occa's messages
+    if (loud) { saved1 = saved2 = -1; return; }
     std::cout.flush(); fflush(stdout); fflush(stderr);
     saved1 = dup(1); saved2 = dup(2);
     static int n = open("/dev/null", O_WRONLY); dup2(n, 1); dup2(n, 2);
   }
   ~Quiet() {
+    if (saved1 < 0) return;
     std::cout.flush(); fflush(stdout); fflush(stderr);
     dup2(saved1, 1); dup2(saved2, 2); close(saved1); close(saved2);
   }
@@ -258,8 +261,26 @@ static const primitive_t* builtinType(const std::string &s) {
   if (s == "void") return &void_;
   return NULL;
 }
+// One tokenizer / parser object for the whole run, re-targeted with set() / parseSource() (which
+// clears the previous state first), as the library's own tests do: building the operator trie and
+// the keyword tables for every expression costs 50 ms (tokenizer) to 1.3 s (parser) under ASan.
+static tokenizer_t& theTokenizer() { static tokenizer_t *t = new tokenizer_t(); return *t; }
+static parser_t& theParser() { static parser_t *p = new parser_t(); return *p; }
+
+static tokenVector tokenize(const std::string &src) {
+  tokenizer_t &tk = theTokenizer();
+  tk.set(src.c_str());
+  tokenVector tokens;
+  token_t *token;
+  while (!tk.isEmpty()) {
+    tk.setNext(token);
+    tokens.push_back(token);
+  }
+  return tokens;
+}
+
 static exprNode* parseExpr(const std::string &src) {
-  tokenVector raw = tokenizer_t::tokenize(src);
+  tokenVector raw = tokenize(src);
   tokenVector tokens;
   for (size_t i = 0; i < raw.size(); ++i) {
     token_t *t = raw[i];
@@ -329,7 +350,7 @@ static std::string roundTripExpr(const std::string &src) {
 static bool parseProgram(const std::string &src, std::string &tree, std::string &text) {
   Quiet q;
   try {
-    parser_t parser;
+    parser_t &parser = theParser();
     parser.parseSource(src);
     if (!parser.success) return false;
     tree = "(root" + dumpKids(parser.root) + ")";
